@@ -413,3 +413,54 @@ func phiUnder(phi *ssa.Phi, at *ssa.BasicBlock) ssa.Value {
 	}
 	return nil
 }
+
+// ------------------------------------------------------------------ C10.R8
+// Round-4 seeds: (a) the value operator of a proof chain (ABCI query proofs) may hand a root on only if the
+// hash of <key, value> equals the proof's leaf hash — whatever total the proof states; skipping the check
+// for a "single-leaf" proof lets any value verify, because the root then comes from the proof alone;
+// (b) where a proven position is compared with a field of an answer, the comparison is made in the wider
+// type: narrowing the proof's 64-bit index to the field's 32 bits lets index 2^32 pass for position 0.
+func init() {
+	register("C10", "R8", "K1", "the value operator binds <key, value> to the proof's leaf hash on every path; proven positions are never compared through a narrowing conversion", 3, func(c *Ctx) {
+		w := c.W
+		if f := c.fn("crypto/merkle", "ValueOp.Run"); f != nil {
+			g := guardRe("hash of <key, value> equals the proof's leaf hash", `^true\(bytes\.Equal\(crypto/merkle\.leafHash\(.*\), \w+\.Proof\.LeafHash\)\)$`)
+			c.Check(c.ge().ensures(f, g, 1), funcKey(f)+" ensures "+g.Name, w.pos(f.Pos()), "a root is handed on only behind it", "ValueOp.Run can hand a root on without having compared the value with the proof's leaf hash")
+		}
+		k := newKeyer()
+		n := 0
+		sizeOf := func(t types.Type) int64 {
+			if b, ok := t.Underlying().(*types.Basic); ok && b.Info()&types.IsInteger != 0 {
+				return w.sizes().Sizeof(t)
+			}
+			return 0
+		}
+		for _, spec := range [][2]string{{"light/rpc", "Client.Tx"}, {"types", "TxProof.Validate"}, {"types", "PartSet.AddPart"}} {
+			f := c.fn(spec[0], spec[1])
+			if f == nil {
+				continue
+			}
+			for _, di := range w.deepInstrs(f, 2) {
+				b, ok := di.in.(*ssa.BinOp)
+				if !ok || !(b.Op == token.EQL || b.Op == token.NEQ) {
+					continue
+				}
+				for _, op := range []ssa.Value{b.X, b.Y} {
+					cv, isConv := op.(*ssa.Convert)
+					if !isConv {
+						continue
+					}
+					from, to := sizeOf(cv.X.Type()), sizeOf(cv.Type())
+					if from == 0 || to == 0 {
+						continue
+					}
+					n++
+					c.Check(to >= from, k.key(f, "position comparison is made in the wider type"), w.ipos(b), "no narrowing", fmt.Sprintf("%s is narrowed from %d to %d bytes before it is compared: positions that differ only in the dropped bits compare equal", w.expr(cv.X), from, to))
+				}
+			}
+		}
+		c.Check(n >= 1, "position comparisons with conversions found", "-", ">= 1", fmt.Sprintf("%d", n))
+	})
+}
+
+func (w *World) sizes() types.Sizes { return types.SizesFor("gc", "amd64") }
